@@ -9,6 +9,7 @@ import (
 	"path/filepath"
 	"sort"
 	"strconv"
+	"strings"
 
 	_ "github.com/ncruces/go-sqlite3/driver"
 	_ "github.com/ncruces/go-sqlite3/embed"
@@ -130,6 +131,48 @@ func ReadLQ(dir, job string) ([]LQRow, error) {
 }
 
 // SeenHash is the key Zeno's local seencheck uses for a URL string.
+// CheckLQ runs SQLite's integrity check on a copy of the queue database (and its journal, which is replayed
+// the way the next start of the job would): "ok", or what is wrong with it.
+func CheckLQ(dir, job string) (string, error) {
+	jp := filepath.Join(dir, "jobs", job)
+	tmp, err := os.MkdirTemp(dir, "lqcheck-")
+	if err != nil {
+		return "", err
+	}
+	defer os.RemoveAll(tmp)
+	ms, _ := filepath.Glob(filepath.Join(jp, "lq.db*"))
+	for _, m := range ms {
+		if err := copyFile(m, filepath.Join(tmp, filepath.Base(m))); err != nil {
+			return "", err
+		}
+	}
+	db, err := sql.Open("sqlite3", "file:"+filepath.Join(tmp, "lq.db"))
+	if err != nil {
+		return "", err
+	}
+	defer db.Close()
+	rs, err := db.Query(`PRAGMA integrity_check`)
+	if err != nil {
+		return err.Error(), nil
+	}
+	defer rs.Close()
+	var out []string
+	for rs.Next() {
+		var l string
+		if err := rs.Scan(&l); err != nil {
+			return err.Error(), nil
+		}
+		out = append(out, l)
+	}
+	if err := rs.Err(); err != nil {
+		return err.Error(), nil
+	}
+	if len(out) > 4 {
+		out = out[:4]
+	}
+	return strings.Join(out, "; "), nil
+}
+
 func SeenHash(u string) string {
 	h := fnv.New64a()
 	h.Write([]byte(u))
